@@ -19,7 +19,12 @@ def gen_case(rng):
         adds.append({"name": name, "interval": iv, "weight": w, "min": mn})
         names.append(name)
     # guarantee a move that is always due with positive weight (the property's side condition on weights)
-    adds.insert(rng.randint(0, len(adds)), {"name": 99, "interval": 1, "weight": rng.choice([1, 3, 64]), "min": 0})
+    if rng.random() < 0.3:   # no always-due move: all weights positive, intervals > 1 => steps with nothing due occur
+        for e in adds:
+            e["weight"] = max(e["weight"], 1)
+            e["interval"] = max(e["interval"], 2)
+    else:
+        adds.insert(rng.randint(0, len(adds)), {"name": 99, "interval": 1, "weight": rng.choice([1, 3, 64]), "min": 0})
     return {"cycles": cycles, "adds": adds, "steps": rng.randint(6, 14), "seed": rng.randint(1, 2**31)}
 
 
